@@ -241,7 +241,7 @@ FINDING_CLASSES = [
     ("native-stack-overflow-reader", [r"stack-overflow:read"]),
     ("native-stack-overflow-expander", [r"stack-overflow:expand"]),
     ("native-stack-overflow-compiler", [r"stack-overflow:compile"]),
-    ("native-stack-overflow-run", [r"stack-overflow:run", r"stack-overflow:builtin:.*"]),
+    ("native-stack-overflow-run", [r"stack-overflow:(run|drop)", r"stack-overflow:builtin:.*"]),
     ("superlinear-front-end-time", [r"hang:(reader|expander|compiler)-time"]),
     ("defmacro-without-name-index-panic", [r"panic:crates/steel-core/src/parser/kernel\.rs:load_syntax_transformers"]),
     ("jit-compile-already-visited-instruction", [r"(panic|abort:panic-cannot-unwind):crates/steel-core/src/jit2/cgen\.rs:stack_to_ssa"]),
@@ -847,7 +847,7 @@ def run_texts(ctx, items, fresh_each=False, tag="t", engine_every=40, phases=Tru
     if phases:
         # which phase overflows the native stack / does not finish (parser / expander / compiler / run)
         over = [(k, b) for (k, b) in items if results.get(k, {}).get("death") == "stack-overflow" or results.get(k, {}).get("hang")]
-        over = over[:(20 if ctx.quick() else 64)]
+        over = over[:80]
         for (k, b), ph in zip(over, C.pool_map(lambda a: overflow_phase(ctx, a[1][1], a[0]), list(enumerate(over)))):
             results[k]["phase"] = ph
     ctx.log("run_texts[%s]: %d texts, evaluation %.1fs, phases %.1fs" % (tag, n, t_b - t_a, time.time() - t_b))
@@ -909,7 +909,11 @@ def overflow_phase(ctx, b, slot=0):
     for r in read_records(out):
         if r.startswith("PH "):
             last = r.split(" ")[2]
-    return {"start": "read", "read": "expand", "expand": "compile", "compile": "run"}.get(last, "?") if "END" not in read_records(out) else "not-reproduced-in-phases"
+    if "END" in read_records(out):
+        return "not-reproduced-in-phases"
+    # the marker that was reached last names the phase before the one that died; dying after `run` = while the values
+    # of the finished evaluation are dropped
+    return {"start": "read", "read": "expand", "expand": "compile", "compile": "run", "run": "drop"}.get(last, "?")
 
 
 # ------------------------------------------------------------------------------------------------------------------
